@@ -511,7 +511,7 @@ def _run(ctx, st):
     keys = list(recs)
     ctx.rng.shuffle(keys)
     keys.sort(key=lambda k: prio[recs[k]['src']])
-    budget = ctx.n(14.0, 240.0)
+    budget = ctx.n(12.0, 150.0)
     for i, k in enumerate(keys):
         r = recs[k]
         if time.time() - t0 > budget:
@@ -584,7 +584,7 @@ def _run(ctx, st):
             ctx.disagree('schema', {'cls': cname, 'doc': r['doc'], 'src': r['src']}, model, impl)
     ctx.cov['schema_stream_s'] = round(time.time() - t0, 1)
     from harness import ctor_stream
-    ctor_stream.run(ctx, st, recs, ctx.n(9.0, 120.0))
+    ctor_stream.run(ctx, st, recs, ctx.n(8.0, 60.0))
     run_re(ctx, st, tables, allnodes)
     run_eq(ctx, st, allnodes)
     ctx.cov['schema_streams_s'] = round(time.time() - t0, 1)
